@@ -1,4 +1,4 @@
-Require Import V.Lib V.GoPath V.GoPathProofs V.C03_Model.
+Require Import V.Lib V.GoPath V.GoPathProofs V.Gen_C09 V.C03_Model.
 Open Scope N_scope.
 
 (* ---------- the matcher covers the resolver ---------- *)
@@ -140,4 +140,343 @@ Theorem internal_blocks_covers_resolver cs p paths prefix :
 Proof.
   intros Hr Hne Hin Hm. apply existsb_exists. exists prefix. split; [exact Hin|].
   apply matcher_covers_resolver; assumption.
+Qed.
+
+(* ====================================================================================
+   multiple rules: what the loop computes, for every rule list
+   ==================================================================================== *)
+Theorem rules_fold_spec cs path rules :
+  fold_left (rule_step cs path) rules (false, false) =
+  (existsb (protects cs path) rules, existsb (fun ru => protects cs path ru && r_creds_ok ru) rules).
+Proof. rewrite fold_rules_spec. reflexivity. Qed.
+
+Lemma existsb_false_forall {A} (f : A -> bool) l :
+  existsb f l = false <-> (forall x, In x l -> f x = false).
+Proof.
+  split.
+  - intros H x Hin. destruct (f x) eqn:E; [|reflexivity].
+    assert (existsb f l = true) by (apply existsb_exists; eauto). congruence.
+  - intros H. apply not_true_is_false. intros E. apply existsb_exists in E as (x & Hin & Hx).
+    rewrite (H x Hin) in Hx. discriminate.
+Qed.
+
+(* ANY-rule semantics: let through iff OPTIONS, or no rule protects the path, or the presented
+   credentials satisfy at least one rule that protects it *)
+Theorem decide_pass_iff cs opt path rules :
+  basicauth_decide cs opt path rules = Pass <->
+  opt = true \/ (forall ru, In ru rules -> protects cs path ru = false) \/
+  (exists ru, In ru rules /\ protects cs path ru = true /\ r_creds_ok ru = true).
+Proof.
+  split.
+  - intros H. destruct opt; [left; reflexivity|right].
+    destruct (existsb (protects cs path) rules) eqn:Ep.
+    + right. destruct (existsb (fun ru => protects cs path ru && r_creds_ok ru) rules) eqn:Es.
+      * apply existsb_exists in Es as (ru & Hin & Hru). apply andb_true_iff in Hru as [H1 H2]. eauto.
+      * assert (D : basicauth_decide cs false path rules = Deny401) by (apply basicauth_decide_spec; auto).
+        congruence.
+    + left. apply existsb_false_forall. exact Ep.
+  - intros [-> | [Hnone | (ru & Hin & Hp & Hok)]].
+    + reflexivity.
+    + destruct (basicauth_decide cs opt path rules) eqn:E; [reflexivity|].
+      apply basicauth_decide_spec in E as (_ & Hp & _).
+      apply existsb_exists in Hp as (ru & Hin & Hp). rewrite (Hnone ru Hin) in Hp. discriminate.
+    + eapply basicauth_pass_with_credentials; eauto.
+Qed.
+
+(* the EVERY-rule reading is not what the code does *)
+Theorem every_rule_refuted :
+  exists cs path rules ru,
+    In ru rules /\ protects cs path ru = true /\ r_creds_ok ru = false /\
+    basicauth_decide cs false path rules = Pass.
+Proof.
+  exists false, (bs "/secret/x/f"%string),
+    [ {| r_resources := [bs "/secret"%string]; r_exclude := []; r_creds_ok := true |};
+      {| r_resources := [bs "/secret/x"%string]; r_exclude := []; r_creds_ok := false |} ],
+    {| r_resources := [bs "/secret/x"%string]; r_exclude := []; r_creds_ok := false |}.
+  split; [right; left; reflexivity|]. repeat split; vm_compute; reflexivity.
+Qed.
+
+(* ... it coincides with it when every protecting rule is satisfied (and then the request passes),
+   in particular when exactly the satisfied rules protect the path *)
+Theorem every_rule_partial cs opt path rules :
+  (forall ru, In ru rules -> protects cs path ru = true -> r_creds_ok ru = true) ->
+  basicauth_decide cs opt path rules = Pass.
+Proof.
+  intros H. apply decide_pass_iff. destruct opt; [left; reflexivity|right].
+  destruct (existsb (protects cs path) rules) eqn:Ep.
+  - right. apply existsb_exists in Ep as (ru & Hin & Hp). exists ru. auto.
+  - left. apply existsb_false_forall. exact Ep.
+Qed.
+
+(* a rule that does not protect the path — no resource matches, or one of ITS exclusions does —
+   is inert wherever it stands: the exclusion of one rule does not leak to the rules after it *)
+Lemma existsb_app_mid {A} (f : A -> bool) l1 x l2 :
+  f x = false -> existsb f (l1 ++ x :: l2) = existsb f (l1 ++ l2).
+Proof. intros H. rewrite !existsb_app. cbn [existsb]. rewrite H. reflexivity. Qed.
+
+Theorem unprotecting_rule_inert cs opt path l1 ru l2 :
+  protects cs path ru = false ->
+  basicauth_decide cs opt path (l1 ++ ru :: l2) = basicauth_decide cs opt path (l1 ++ l2).
+Proof.
+  intros H. unfold basicauth_decide. destruct opt; [reflexivity|].
+  rewrite !rules_fold_spec. rewrite !existsb_app_mid; [reflexivity| rewrite H; reflexivity | exact H].
+Qed.
+
+Theorem excluded_rule_inert cs opt path l1 ru l2 :
+  existsb (path_matches cs path) (r_exclude ru) = true ->
+  basicauth_decide cs opt path (l1 ++ ru :: l2) = basicauth_decide cs opt path (l1 ++ l2).
+Proof.
+  intros H. apply unprotecting_rule_inert. unfold protects. rewrite H. apply andb_false_r.
+Qed.
+
+Require Import Coq.Sorting.Permutation.
+Lemma existsb_perm {A} (f : A -> bool) l l' : Permutation l l' -> existsb f l = existsb f l'.
+Proof.
+  induction 1; cbn [existsb]; try congruence.
+  destruct (f x), (f y); reflexivity.
+Qed.
+
+(* the decision does not depend on the order in which the rules are written *)
+Theorem decide_permutation cs opt path rules rules' :
+  Permutation rules rules' -> basicauth_decide cs opt path rules = basicauth_decide cs opt path rules'.
+Proof.
+  intros HP. unfold basicauth_decide. destruct opt; [reflexivity|].
+  rewrite !rules_fold_spec. rewrite (existsb_perm _ _ _ HP).
+  rewrite (existsb_perm (fun ru => protects cs path ru && r_creds_ok ru) _ _ HP). reflexivity.
+Qed.
+
+(* ====================================================================================
+   internal: the X-Accel-Redirect loop
+   ==================================================================================== *)
+Lemma accel_loop_ext inner1 inner2 :
+  (forall q w, inner1 q w = inner2 q w) ->
+  forall fuel q cur, accel_loop fuel inner1 q cur = accel_loop fuel inner2 q cur.
+Proof.
+  intros HE. induction fuel as [|k IH]; intros q cur; cbn [accel_loop].
+  - reflexivity.
+  - destruct (o_hdr cur); [reflexivity|]. rewrite HE. apply IH.
+Qed.
+
+Lemma internal_serve_ext cs ps inner1 inner2 q w :
+  (forall q w, inner1 q w = inner2 q w) ->
+  internal_serve cs ps inner1 q w = internal_serve cs ps inner2 q w.
+Proof.
+  intros HE. unfold internal_serve. destruct (internal_blocks cs (q_path q) ps); [reflexivity|].
+  rewrite HE. apply accel_loop_ext. exact HE.
+Qed.
+
+(* an internal location is answered 404 and nothing is run, whatever the client sends and
+   whatever the response header map already holds *)
+Theorem internal_blocked_404 cs ps inner q w :
+  internal_blocks cs (q_path q) ps = true ->
+  internal_serve cs ps inner q w = deny 404 w.
+Proof. intros H. unfold internal_serve. rewrite H. reflexivity. Qed.
+
+(* the client's own X-Accel-Redirect REQUEST header is never consulted: if the inner handlers
+   ignore it, so does the whole middleware *)
+Lemma accel_loop_xaccel inner x :
+  (forall q w, inner (with_xaccel q x) w = inner q w) ->
+  forall fuel q cur, accel_loop fuel inner (with_xaccel q x) cur = accel_loop fuel inner q cur.
+Proof.
+  intros HI. induction fuel as [|k IH]; intros q cur; cbn [accel_loop]; [reflexivity|].
+  destruct (o_hdr cur) as [|t ts]; [reflexivity|].
+  change (set_path (with_xaccel q x) (t :: ts)) with (with_xaccel (set_path q (t :: ts)) x).
+  rewrite HI. apply IH.
+Qed.
+
+Theorem internal_request_header_inert cs ps inner q w x :
+  (forall q w, inner (with_xaccel q x) w = inner q w) ->
+  internal_serve cs ps inner (with_xaccel q x) w = internal_serve cs ps inner q w.
+Proof.
+  intros HI. unfold internal_serve. cbn [with_xaccel q_path].
+  destruct (internal_blocks cs (q_path q) ps); [reflexivity|].
+  rewrite HI. apply accel_loop_xaccel. exact HI.
+Qed.
+
+(* no inner handler sets the response header (and none was set on entry): one call, no redirect,
+   internal locations stay 404 — for every value of the client's request header *)
+Theorem internal_no_response_header cs ps h q x :
+  (forall q w, h q w = w) ->
+  internal_serve cs ps (touch h) (with_xaccel q x) [] =
+  if internal_blocks cs (q_path q) ps then deny 404 [] else touch h (with_xaccel q x) [].
+Proof.
+  intros Hh. unfold internal_serve. cbn [with_xaccel q_path].
+  destruct (internal_blocks cs (q_path q) ps); [reflexivity|].
+  cbn [accel_loop touch o_hdr]. rewrite Hh. reflexivity.
+Qed.
+
+(* every path the inner chain is run with after the first one was named by a response header
+   an inner handler produced (or found and kept) *)
+Definition named_by (h : hdrfun) (t : bytes) : Prop := t <> [] /\ exists q w, h q w = t.
+
+Lemma accel_loop_touched h : forall fuel q cur,
+  (o_hdr cur <> [] -> named_by h (o_hdr cur)) ->
+  forall t, In t (o_touched (accel_loop fuel (touch h) q cur)) ->
+            In t (o_touched cur) \/ named_by h t.
+Proof.
+  induction fuel as [|k IH]; intros q cur Hc t; cbn [accel_loop].
+  - destruct (o_hdr cur); cbn [o_touched]; auto.
+  - destruct (o_hdr cur) as [|c ts] eqn:Eh; [auto|].
+    assert (Hn : named_by h (c :: ts)) by (apply Hc; discriminate).
+    intros Hin. apply IH in Hin.
+    + destruct Hin as [Hin | Hin]; [|right; exact Hin].
+      cbn [o_touched touch] in Hin. apply in_app_or in Hin as [Hin | [<- | []]]; [left; exact Hin|].
+      right. exact Hn.
+    + cbn [o_hdr touch]. intros Hne. split; [exact Hne|]. eauto.
+Qed.
+
+Theorem internal_touched_spec cs ps h q w :
+  forall t, In t (o_touched (internal_serve cs ps (touch h) q w)) ->
+    internal_blocks cs (q_path q) ps = false /\ (t = q_path q \/ named_by h t).
+Proof.
+  intros t. unfold internal_serve.
+  destruct (internal_blocks cs (q_path q) ps); [intros []|].
+  intros Hin. split; [reflexivity|].
+  apply accel_loop_touched in Hin.
+  - destruct Hin as [[<- | []] | Hn]; auto.
+  - cbn [touch o_hdr]. intros Hne. split; [exact Hne|]. eauto.
+Qed.
+
+(* ... and a response header does unlock: the inner handler names t, the chain is run again with t,
+   without any test against the internal locations *)
+Theorem internal_unlock_by_response_header cs ps h q w t :
+  internal_blocks cs (q_path q) ps = false -> t <> [] ->
+  h q w = t -> h (set_path q t) [] = [] ->
+  internal_serve cs ps (touch h) q w = {| o_status := 200; o_touched := [q_path q; t]; o_hdr := [] |}.
+Proof.
+  intros Hb Hne H1 H2. unfold internal_serve. rewrite Hb.
+  destruct t as [|c ts]; [congruence|].
+  cbn [accel_loop touch o_hdr o_status o_touched]. rewrite H1.
+  cbn [accel_loop touch o_hdr o_status o_touched app]. rewrite H2. reflexivity.
+Qed.
+
+(* the loop is bounded: at most 1 + 10 runs of the inner chain *)
+Lemma accel_loop_bound h : forall fuel q cur,
+  (length (o_touched (accel_loop fuel (touch h) q cur)) <= length (o_touched cur) + fuel)%nat.
+Proof.
+  induction fuel as [|k IH]; intros q cur; cbn [accel_loop].
+  - destruct (o_hdr cur); cbn [o_touched]; lia.
+  - destruct (o_hdr cur); [lia|].
+    eapply Nat.le_trans; [apply IH|]. cbn [o_touched touch]. rewrite app_length. cbn. lia.
+Qed.
+
+Theorem internal_bounded cs ps h q w :
+  (length (o_touched (internal_serve cs ps (touch h) q w)) <= 11)%nat.
+Proof.
+  unfold internal_serve. destruct (internal_blocks cs (q_path q) ps); [cbn; lia|].
+  eapply Nat.le_trans; [apply accel_loop_bound|]. cbn. lia.
+Qed.
+
+(* ====================================================================================
+   the chain in canonical order
+   ==================================================================================== *)
+Lemma sorted_from_mono : forall rs k k', (k <= k')%nat -> sorted_from k' rs = true -> sorted_from k rs = true.
+Proof.
+  induction rs as [|r rs IH]; intros k k' Hk H; [reflexivity|].
+  destruct r; cbn [sorted_from] in *;
+    try (apply andb_true_iff in H as [H1 H2]; apply Nat.leb_le in H1;
+         apply andb_true_iff; split; [apply Nat.leb_le; lia | exact H2]).
+  eapply IH; eauto.
+Qed.
+
+Lemma stack_sorted s : wf_site s -> forall dirs k,
+  sorted_from k (map role_of dirs) = true -> sorted_from k (map kind (stack s dirs)) = true.
+Proof.
+  intros Hwf. induction dirs as [|n dirs IH]; intros k H; [reflexivity|].
+  cbn [stack map] in *. destruct (s n) as [m|] eqn:E.
+  - cbn [map]. rewrite (Hwf n m E).
+    destruct (role_of n); cbn [sorted_from] in *;
+      try (apply andb_true_iff in H as [H1 H2]; rewrite H1; cbn [andb]; apply IH; exact H2).
+    apply IH. exact H.
+  - apply IH. destruct (role_of n); cbn [sorted_from] in H;
+      try (apply andb_true_iff in H as [H1 H2]; apply Nat.leb_le in H1;
+           eapply sorted_from_mono; [|exact H2]; lia).
+    exact H.
+Qed.
+
+(* phase 3: only content handlers (and neutral directives) remain: the path is not touched *)
+Lemma run_phase3 cs leaf : forall stk, sorted_from 3 (map kind stk) = true ->
+  forall q w, run cs stk leaf q w = touch (answer stk leaf) q w.
+Proof.
+  induction stk as [|m stk IH]; intros H q w; [reflexivity|].
+  destruct m; cbn [map kind sorted_from] in H; try discriminate.
+  - cbn [run answer]. apply IH. exact H.
+  - cbn [run answer]. destruct (takes (q_path q)) eqn:Et.
+    + unfold touch. rewrite Et. reflexivity.
+    + rewrite IH by exact H. unfold touch. rewrite Et. reflexivity.
+Qed.
+
+Lemma run_phase2 cs leaf : forall stk, sorted_from 2 (map kind stk) = true ->
+  forall q w, run cs stk leaf q w = serve_part cs stk leaf q w.
+Proof.
+  induction stk as [|m stk IH]; intros H q w; [reflexivity|].
+  destruct m; cbn [map kind sorted_from] in H; try discriminate.
+  - (* internal *) cbn [run]. unfold serve_part. cbn [internal_paths answer].
+    apply internal_serve_ext. intros q0 w0. apply run_phase3. exact H.
+  - (* neutral *) cbn [run]. rewrite IH by exact H. reflexivity.
+  - (* content *) rewrite run_phase3 by exact H. reflexivity.
+Qed.
+
+Lemma decide_nil cs opt p : basicauth_decide cs opt p [] = Pass.
+Proof. unfold basicauth_decide. destruct opt; reflexivity. Qed.
+
+Lemma set_path_id q : set_path q (q_path q) = q.
+Proof. destruct q; reflexivity. Qed.
+
+Lemma run_phase1 cs leaf : forall stk, sorted_from 1 (map kind stk) = true ->
+  forall q w, run cs stk leaf q w = chain_nf cs stk leaf q w.
+Proof.
+  induction stk as [|m stk IH]; intros H q w.
+  - unfold chain_nf. cbn [final_path auth_rules]. rewrite decide_nil, set_path_id. reflexivity.
+  - destruct m; cbn [map kind sorted_from] in H; try discriminate.
+    + (* auth *) unfold chain_nf. cbn [run final_path auth_rules]. rewrite set_path_id.
+      destruct (basicauth_decide cs (q_options q) (q_path q) rules); [|reflexivity].
+      rewrite run_phase2 by exact H. reflexivity.
+    + (* internal *) unfold chain_nf. cbn [final_path auth_rules]. rewrite decide_nil, set_path_id.
+      apply run_phase2. exact H.
+    + (* neutral *) cbn [run]. rewrite IH by exact H. reflexivity.
+    + (* content *) unfold chain_nf. cbn [final_path auth_rules]. rewrite decide_nil, set_path_id.
+      apply run_phase2. exact H.
+Qed.
+
+(* basicauth and internal test exactly the path the content handlers are first run with *)
+Theorem run_normal_form cs leaf : forall stk, sorted_from 0 (map kind stk) = true ->
+  forall q w, run cs stk leaf q w = chain_nf cs stk leaf q w.
+Proof.
+  induction stk as [|m stk IH]; intros H q w.
+  - apply run_phase1. reflexivity.
+  - destruct m; cbn [map kind sorted_from] in H.
+    + (* writer *) cbn [run]. rewrite IH by exact H. reflexivity.
+    + apply run_phase1. exact H.
+    + apply run_phase1. exact H.
+    + cbn [run]. rewrite IH by exact H. reflexivity.
+    + apply run_phase1. exact H.
+Qed.
+
+(* the order facts, computed by the kernel on the list regenerated from plugin.go *)
+Lemma gen_order_facts : sorted_from 0 (map role_of gen_directives) = true.
+Proof. vm_compute. reflexivity. Qed.
+
+Lemma gen_roles_present :
+  forallb (fun n => memb n gen_directives)
+          (writer_names ++ [bs "basicauth"%string; bs "internal"%string] ++ content_names) = true.
+Proof. vm_compute. reflexivity. Qed.
+
+Theorem auth_sees_final_path (s : site) cs leaf q w :
+  wf_site s ->
+  run cs (stack s gen_directives) leaf q w = chain_nf cs (stack s gen_directives) leaf q w.
+Proof.
+  intros Hwf. apply run_normal_form. apply stack_sorted; [exact Hwf|]. exact gen_order_facts.
+Qed.
+
+(* the order hypothesis is what carries the theorem: basicauth placed outside a rewriter tests a
+   path nobody serves *)
+Theorem unordered_chain_refuted :
+  exists cs stk leaf q w, run cs stk leaf q w <> chain_nf cs stk leaf q w /\ o_status (run cs stk leaf q w) = 200.
+Proof.
+  exists false,
+    [MAuth [ {| r_resources := [bs "/secret"%string]; r_exclude := []; r_creds_ok := false |} ];
+     MWriter (fun _ => bs "/secret/f.txt"%string)],
+    (fun _ w => w), {| q_path := bs "/alias"%string; q_options := false; q_xaccel := [] |}, [].
+  split; [|vm_compute; reflexivity]. vm_compute. discriminate.
 Qed.
